@@ -97,8 +97,8 @@ int main(int argc, char** argv)
     exp2_all<std::uint32_t>(out, std::make_integer_sequence<int, 30>{});
     const_all<std::uint32_t>(out, std::make_integer_sequence<int, 28>{});
 #elif MATH_SET == 5
-    const_all<std::int64_t>(out, std::make_integer_sequence<int, 59>{});
-    const_all<std::uint64_t>(out, std::make_integer_sequence<int, 60>{});
+    const_all<std::int64_t>(out, std::make_integer_sequence<int, 60>{});      // exponents -2..-61
+    const_all<std::uint64_t>(out, std::make_integer_sequence<int, 61>{});     // exponents -2..-62 (two integer bits left)
 #endif
     std::fprintf(stderr, "events=%llu insts=%d\n", out.n, out.ninst);
     return 0;
